@@ -99,7 +99,55 @@ fn outline_tasks() -> Vec<(&'static str, &'static str, bool)> {
     ]
 }
 
+// regularity as documented (res/manual/src/analyze.md; Lifschitz 2021): the harness's own reading, independent of natural.rs
+fn sis(t: &asp::Term) -> bool {
+    match t {
+        asp::Term::Variable(_) => false,
+        asp::Term::PrecomputedTerm(p) => !matches!(p, asp::PrecomputedTerm::Numeral(_)),
+        asp::Term::UnaryOperation { arg, .. } => sis(arg),
+        asp::Term::BinaryOperation { lhs, rhs, .. } => sis(lhs) || sis(rhs),
+    }
+}
+fn reg1(t: &asp::Term) -> bool {
+    match t {
+        asp::Term::Variable(_) | asp::Term::PrecomputedTerm(_) => true,
+        asp::Term::UnaryOperation { arg, .. } => reg1(arg) && !sis(arg),
+        asp::Term::BinaryOperation { op, lhs, rhs } => matches!(op, asp::BinaryOperator::Add | asp::BinaryOperator::Subtract | asp::BinaryOperator::Multiply) && reg1(lhs) && reg1(rhs) && !sis(lhs) && !sis(rhs),
+    }
+}
+fn reg2(t: &asp::Term) -> bool {
+    matches!(t, asp::Term::BinaryOperation { op: asp::BinaryOperator::Interval, lhs, rhs } if reg1(lhs) && reg1(rhs) && !sis(lhs) && !sis(rhs))
+}
+fn regular(r: &asp::Rule) -> bool {
+    let head_ok = r.head.terms().map(|ts| ts.iter().all(|t| reg1(t) || reg2(t))).unwrap_or(true);
+    head_ok && r.body.formulas.iter().all(|f| match f {
+        asp::AtomicFormula::Literal(l) => l.atom.terms.iter().all(reg1),
+        asp::AtomicFormula::Comparison(c) => (reg1(&c.lhs) && reg1(&c.rhs)) || (matches!(c.relation, asp::Relation::Equal) && reg1(&c.lhs) && reg2(&c.rhs)),
+    })
+}
+
 pub fn check(runs: &mut usize, fails: &mut Vec<Failure>) {
+    // regularity: `analyze --property regularity` (and the acceptance by the natural translation) against the documented definition
+    {
+        use anthem::translating::formula_representation::natural::Natural as _;
+        let rules = crate::trans::corpus(false);
+        for (k, text) in rules.iter().enumerate() {
+            let p = match asp::Program::from_str(text) { Ok(p) => p, Err(_) => continue };
+            let want = p.rules.iter().all(regular);
+            *runs += 1;
+            let got = std::panic::catch_unwind(|| p.clone().natural().is_some());
+            match got {
+                Ok(g) if g != want => fails.push(Failure { property: "C11", input: format!("`{text}`"), detail: format!("the natural translation {} the program, but by the documented definition it is {}regular", if g { "accepts" } else { "refuses" }, if want { "" } else { "not " }) }),
+                Err(_) => fails.push(Failure { property: "C16", input: format!("`{text}`"), detail: "the natural translation panicked".into() }),
+                _ => {}
+            }
+            if k % 16 == 0 {
+                if let Ok((rc, out, _)) = run_anthem(&["analyze", "--property", "regularity"], Some(text)) {
+                    if rc != 0 || out.trim() != want.to_string() { fails.push(Failure { property: "C11", input: format!("anthem analyze --property regularity: `{text}`"), detail: format!("prints `{}` (exit {rc}) but by the documented definition the program is {}regular", out.trim(), if want { "" } else { "not " }) }); }
+                }
+            }
+        }
+    }
     for (why, outline, refused) in outline_tasks() {
         *runs += 1;
         let files = vec![("a.lp", "p(X) :- t(X). t(X) :- q(X)."), ("b.lp", "p(X) :- q(X)."), ("g.ug", "input: q/1. output: p/1."), ("o.po", outline)];
